@@ -373,6 +373,14 @@ func returnedValue(r *ssa.Return, i int) ssa.Value {
 			}
 		}
 		if last != nil {
+			// `err = f(); return err` on a named result stores the variable to itself: follow to the value assigned
+			for i := 0; i < 4; i++ {
+				nv := reachingDef(last)
+				if nv == last {
+					break
+				}
+				last = nv
+			}
 			return last
 		}
 	}
